@@ -308,6 +308,9 @@ func c17Pipeline(t *testing.T, rec *ev.Rec) {
 	for run := 0; run < runs; run++ {
 		n := []int{1, 2, 3, 5}[(run+ev.ShardNo())%4]
 		gap := []int64{1, 20, 41, 100}[rnd.Intn(4)]
+		if run == 0 {
+			gap = []int64{20, 100}[ev.ShardNo()%2] // a multiple of the request period: the exact-gap outage below is reachable
+		}
 		c := sim.New(sim.Options{})
 		panicked := false
 		var hist []string
@@ -349,6 +352,7 @@ func c17Pipeline(t *testing.T, rec *ev.Rec) {
 		var answered []uint64
 		forceFresh := 0
 		joined := false
+		aimedStale := 0
 		for round := 0; round < rounds && !panicked; round++ {
 			// governance switches the oracle price requirement on for an existing asset whose id lies between two oracle
 			// assets (odd runs: CMDX). The relayer answers promptly in the two rounds that follow.
@@ -393,6 +397,22 @@ func c17Pipeline(t *testing.T, rec *ev.Rec) {
 				c.NextBlock(6e9)
 			}
 			fresh := rnd.Intn(100) >= 25
+			// aimed outage: the feed is silent for exactly the accepted height gap (possible when the gap is a multiple of
+			// the 20-block request period), then answers again: the boundary of "windows older than the gap are discarded"
+			if round == 3 && gap%20 == 0 {
+				aimedStale = int(gap / 20)
+				fresh = true // the round before the outage is answered, so that the outage starts at a known height
+			} else if aimedStale > 0 {
+				fresh = false
+				aimedStale--
+				if aimedStale == 0 {
+					aimedStale = -1
+				}
+			} else if aimedStale == -1 {
+				fresh = true
+				aimedStale = 0
+				rec.Count("pipeline_outages_of_exactly_the_accepted_gap", 1)
+			}
 			if forceFresh > 0 {
 				fresh = true
 				forceFresh--
